@@ -20,7 +20,7 @@ from .gen.formulas import Config, FormulaGen
 
 TRUSTED = [
     "Coq 8.16.1 kernel (vm_compute only in the closed refutation witnesses and in the case files); core/Sem.v is the specification of truth under an interpretation",
-    "hand models models/Cnf.v (CNFizer.walk_*, convert, convert_as_formula, PolarityCNFizer, FormulaManager.new_fresh_symbol) and models/Ackermann.v, tied to rewritings.py by this run's correspondence (exact fresh names, clause sets as sets of sets)",
+    "hand models models/Cnf.v (CNFizer.walk_*, convert, convert_as_formula, PolarityCNFizer, FormulaManager.new_fresh_symbol) and models/Ackermann.v, tied to rewritings.py by this run's correspondence (exact fresh names, clause sets as sets of sets; Ackermann result up to And/Or order and orientation of = / <->)",
     "Section hypotheses of proofs/Cnf_proofs.v: the simplifier applied by Not(a).simplify() to a theory atom returns a term with the same truth value under every interpretation (property C01's subject) and, for the shape theorem, an atom, a negated atom or a Boolean constant; checked on every generated case by the shape/search oracle on the implementation's own output",
     "the memoising DAG walker computes the same function as the tree recursion of the models (core/DagWalk.v, walk_refines)",
     "standard-library axioms pulled in by core/Sem.v (classical reals, excluded middle via ClassicalDescription, functional extensionality)",
@@ -29,7 +29,7 @@ ASSUMPTIONS = [
     "quantifier-free formulas (both converters raise NotImplementedError on a quantifier; the model returns None)",
     "theorems are conditional on the conversion returning (model result Some _); cnf_total shows it does for every formula whose connectives have Boolean-structure/atom children",
     "cnf_sound holds only when the top-level clean-up empties no clause (cnf_sound_partial; exact criterion cnf_emptied); refuted otherwise: cnf(And(a, FALSE)) = a",
-    "Ackermannization: shape and soundness for formulas whose application arguments are application-free or applications themselves (ack_flat); refuted otherwise",
+    "Ackermannization: only the refutation of the shape clause (ack_shape_refuted: f(f(x)+1) = x keeps f(x)) is a theorem; shape on flat inputs, completeness and soundness are checked by correspondence with models/Ackermann.v and by the refeval search oracle (test level, not proof)",
     "FNode.simplify()/get_type() use the GLOBAL environment, so the check makes the fresh Environment of each batch the global one",
 ]
 RULE = ("cases: harness/gen/formulas.py restricted to quantifier-free (theory atoms of every theory, Boolean structure nested in atoms, sharing) "
@@ -425,12 +425,209 @@ def cnf_part(chk, rnd, tier):
     return not bad and not errs
 
 
+# ------------------------------------------------------------------------------------------
+# Ackermannization
+# ------------------------------------------------------------------------------------------
+class UFGen(object):
+    """QF formulas over Int with nested applications of several function symbols."""
+
+    def __init__(self, env, rnd, flat=False):
+        from pysmt.typing import INT, BOOL, FunctionType
+        self.m = m = env.formula_manager
+        self.rnd = rnd
+        self.flat = flat
+        self.xs = [m.Symbol(n, INT) for n in ("x", "y", "z")]
+        self.bs = [m.Symbol(n, BOOL) for n in ("p", "q")]
+        self.f = m.Symbol("f", FunctionType(INT, [INT]))
+        self.g = m.Symbol("g", FunctionType(INT, [INT, INT]))
+        self.h = m.Symbol("h", FunctionType(INT, [INT, BOOL]))
+        self.pr = m.Symbol("pr", FunctionType(BOOL, [INT]))
+
+    def term(self, d, inside_app=False):
+        r, m = self.rnd, self.m
+        if d <= 0 or r.random() < 0.2:
+            return r.choice(self.xs + [m.Int(0), m.Int(1)])
+        k = r.choice(["f", "f", "g", "h", "plus", "ite"])
+        if inside_app and self.flat and k in ("plus", "ite"):
+            k = "f"
+        if k == "f":
+            return m.Function(self.f, [self.term(d - 1, True)])
+        if k == "g":
+            return m.Function(self.g, [self.term(d - 1, True), self.term(d - 1, True)])
+        if k == "h":
+            return m.Function(self.h, [self.term(d - 1, True), r.choice(self.bs) if self.flat or r.random() < 0.5 else self.atom(d - 1)])
+        if k == "plus":
+            return m.Plus(self.term(d - 1), self.term(d - 1))
+        return m.Ite(self.atom(d - 1), self.term(d - 1), self.term(d - 1))
+
+    def atom(self, d):
+        r, m = self.rnd, self.m
+        k = r.choice(["eq", "le", "pr", "b"])
+        if k == "eq":
+            return m.Equals(self.term(d), self.term(d))
+        if k == "le":
+            return m.LE(self.term(d), self.term(d))
+        if k == "pr":
+            return m.Function(self.pr, [self.term(d, True)])
+        return r.choice(self.bs)
+
+    def formula(self, d):
+        r, m = self.rnd, self.m
+        if d <= 0 or r.random() < 0.3:
+            return self.atom(r.randint(0, 2))
+        k = r.choice(["and", "or", "not", "implies", "iff"])
+        if k == "and":
+            return m.And(self.formula(d - 1), self.formula(d - 1))
+        if k == "or":
+            return m.Or(self.formula(d - 1), self.formula(d - 1))
+        if k == "not":
+            return m.Not(self.formula(d - 1))
+        if k == "implies":
+            return m.Implies(self.formula(d - 1), self.formula(d - 1))
+        return m.Iff(self.formula(d - 1), self.formula(d - 1))
+
+
+ACK_T = "term * nat * list string * term * nat"
+ACK_OK = """
+Definition ok (c : ACK_T) : bool :=
+  let '(f, guess, names, exp, eguess) := c in
+  let (res, st) := ackermannize f (init_astate guess names) in
+  sac_eqb res exp && Nat.eqb (fresh_guess (amgr st)) eguess.
+"""
+
+
+def nested_class(f):
+    """Independent statement of the known finding's input class: some application has an
+    argument that is not an application but contains one."""
+    has = {}
+    for n in tocoq.topo([f]):
+        has[n] = n.is_function_application() or any(has[a] for a in n.args())
+    for n in tocoq.topo([f]):
+        if n.is_function_application():
+            for a in n.args():
+                if not a.is_function_application() and has[a]:
+                    return True
+    return False
+
+
+def search_ack(chk, env, rnd, f, out, acker, stats):
+    from . import refeval
+    apps_left = [n for n in tocoq.topo([out]) if n.is_function_application()]
+    if apps_left:
+        key = KNOWN_ACK_NESTED if nested_class(f) else "ack-shape:%s" % short_key(f)
+        chk.violation({"kind": "input", "what": "ackermannization: the result still contains the application %s" % apps_left[0].serialize(),
+                       "formula": f.serialize(), "output": out.serialize(), "repro": repro("ack", f)}, key=key)
+    c2t = acker.get_const_to_term_dict()
+    apps = sorted(c2t.items(), key=lambda kv: len(tocoq.topo([kv[1]])))
+    # (a) completeness: each constant := the value of its application
+    for _ in range(4):
+        it = refeval.random_interp(rnd, [f], int_range=(-2, 2), div0="raise")
+        try:
+            vf, ex = refeval.evaluate_ex(f, it)
+            if not ex:
+                continue
+            it2 = refeval.interp_updated(it, dict((c, refeval.evaluate_ex(t, it)[0]) for c, t in c2t.items()))
+            vo, ex2 = refeval.evaluate_ex(out, it2)
+        except refeval.RefEvalError:
+            stats["skipped"] += 1
+            continue
+        stats["complete_checked"] += 1
+        if vf is True and vo is not True:
+            chk.violation({"kind": "input", "what": "ackermannization: an interpretation satisfying the input, extended by c_app := value(app), falsifies the output",
+                           "formula": f.serialize(), "output": out.serialize(), "interp": it.describe(), "repro": repro("ack", f),
+                           "oracle": "harness/refeval.py"}, key="ack-complete:%s" % short_key(f))
+            return
+    if apps_left:
+        return
+    # (b) soundness: an interpretation of the output's symbols satisfying it, with the tables
+    # F(value of args) := value of c_app, satisfies the input
+    for _ in range(12):
+        it = refeval.random_interp(rnd, [out], int_range=(-1, 1), div0="raise")
+        try:
+            vo, ex = refeval.evaluate_ex(out, it)
+            if vo is not True or not ex:
+                continue
+            it2 = it.copy()
+            it2.functions = {}
+            tabs = {}
+            conflict = False
+            for c, t in apps:
+                fn = t.function_name()
+                vals = tuple(refeval.evaluate_ex(a, it2)[0] for a in t.args())
+                tab = tabs.setdefault(fn, {})
+                v = it.value(c)
+                if vals in tab and tab[vals] != v:
+                    conflict = True
+                else:
+                    tab[vals] = v
+                it2.set_function(fn, tab)
+            vf, ex2 = refeval.evaluate_ex(f, it2)
+        except refeval.RefEvalError:
+            stats["skipped"] += 1
+            continue
+        stats["sound_checked"] += 1
+        if vf is not True:
+            chk.violation({"kind": "input", "what": "ackermannization: an interpretation satisfies the output but the function tables read off the constants do not satisfy the input%s" % (" (tables inconsistent)" if conflict else ""),
+                           "formula": f.serialize(), "output": out.serialize(), "interp": it.describe(), "repro": repro("ack", f),
+                           "oracle": "harness/refeval.py"}, key="ack-sound:%s" % short_key(f))
+            return
+
+
+def ack_part(chk, rnd, tier):
+    from pysmt.rewritings import Ackermannizer
+    nbatches = 6 if tier == "quick" else 50
+    cases, meta = [], []
+    stats = {"complete_checked": 0, "sound_checked": 0, "skipped": 0, "nested_inputs": 0}
+    for b in range(nbatches):
+        env = fresh_env()
+        m = env.formula_manager
+        fs = []
+        ug = UFGen(env, rnd, flat=(b % 2 == 1))
+        if b == 0:
+            x, y = ug.xs[0], ug.xs[1]
+            F = lambda t: m.Function(ug.f, [t])
+            fs += [m.Equals(F(m.Plus(F(x), m.Int(1))), x), m.And(m.Equals(F(F(x)), x), m.Equals(F(x), m.Int(3))),
+                   m.Equals(F(x), F(y)), m.Not(m.Implies(m.Equals(x, y), m.Equals(F(x), F(y)))), m.Equals(x, y),
+                   m.Iff(m.Function(ug.pr, [x]), m.Function(ug.pr, [F(y)]))]
+        for i in range(30):
+            fs.append(ug.formula(rnd.randint(0, 3)))
+        if b % 3 == 2:
+            fg = FormulaGen(env, rnd, Config(quantifiers=False, strings=False, arrays=False, div=False, nonlinear=False, max_arity=3))
+            for i in range(20):
+                fs.append(fg.gen(fg.types[0], rnd.randint(1, 4)))
+        for f in fs:
+            before = (m._fresh_guess, list(m.symbols.keys()))
+            acker = Ackermannizer(env)
+            out = acker.do_ackermannization(f)
+            after = m._fresh_guess
+            cases.append(([f, out], (lambda nm, f=f, out=out, before=before, after=after:
+                                     "(%s, %d%%nat, [%s], %s, %d%%nat)" % (nm[f], before[0], "; ".join(tocoq.cstr(n) for n in before[1]), nm[out], after))))
+            meta.append(f.serialize()[:400])
+            chk.count(("ack", tocoq.skey(f)), nontrivial=bool(acker.get_term_to_const_dict()))
+            if nested_class(f):
+                stats["nested_inputs"] += 1
+            search_ack(chk, env, rnd, f, out, acker, stats)
+        if b == 0:
+            chk.sample({"kind": "ackermannization", "formula": fs[-1].serialize()[:300]})
+    files = termcases.write(chk.dir, "ack", "From PySMT.models Require Import Oracles Cnf Ackermann.", ACK_T, ACK_OK.replace("ACK_T", ACK_T), cases, shard=40)
+    bad, errs = termcases.run(files)
+    chk.cov.setdefault("correspondence", {}).update({"ack_cases": len(cases), "ack_disagreements": len(bad) + len(errs)})
+    chk.cov["search_ack"] = stats
+    for i in bad[:4]:
+        chk.note("Ackermann model/implementation disagreement on %s" % meta[i])
+        chk.cov["correspondence"].setdefault("ack_examples", []).append(meta[i])
+    for e in errs[:2]:
+        chk.note("Ackermann case file error: %s" % e["error"][-400:])
+    return not bad and not errs
+
+
 def run(tier):
     chk = lib.Check("C11", tier)
     rnd = random.Random(chk.seed)
     lib.clean_cases(chk.dir)
-    ok = chk.prove(extra_targets=["models/Cnf.vo"])
+    ok = chk.prove(extra_targets=["models/Cnf.vo", "models/Ackermann.vo"])
     corr_ok = cnf_part(chk, rnd, tier)
+    corr_ok = ack_part(chk, rnd, tier) and corr_ok
     fresh_env()
     if (not ok or not corr_ok) and not chk.violations and not chk.known_hits:
         what = []
